@@ -402,7 +402,9 @@ def tr_sibling(ctx):
             ra = sorted(s2 for (x, s2) in wq if x == s)
             rb = sorted(s2 for (x, s2) in wt if x == s)
             key = 'WakeQueue/WakeThread|%s' % s
-            if ra != rb:
+            if ra != rb and s == 'WaitingForWake' and ra and rb and set(ra) | set(rb) <= {'Idle', 'Pending'}:
+                out.append(ok('TR-sibling', key, 'both hand a queue parked in %s back to be claimed (WakeQueue -> %s, WakeThread -> %s)' % (s, ra, rb)))
+            elif ra != rb:
                 out.append(bad('TR-sibling', key, 'the two wakers disagree on %s: WakeQueue -> %s, WakeThread -> %s' % (s, ra, rb)))
             else:
                 out.append(ok('TR-sibling', key, 'both map %s -> %s' % (s, ra)))
@@ -737,6 +739,17 @@ def tr_base(ctx):
             added = [x for x in added if x not in widened]
             if widened and not added and not gone:
                 out.append(ok('TR-base', key, '%d transition(s) as reviewed; also claims from %s (an unowned state: decided by PA-excl and the TOK rules)' % (len(b), '/'.join(sorted(set(a for a, _, _ in widened)))), fn=root))
+                continue
+        # a waker (or any non-runner) that used to hand a parked queue back as Idle - leaving it to reschedule_queue to mark it Pending - now
+        # marks it Pending itself: the same hand-back, and what a Pending write owes (the schedule entry, the thread request) is TOK-pending's
+        # question, what a woken queue owes the blocked sync callers is PARK-wake's and QD-waiters'
+        direct = [(a, d, r) for (a, d, r) in added if r == 'nonowner' and d == 'Pending' and a in UNOWNED and a not in ('Pending', 'Panicked') and (a, 'Idle', 'nonowner') in gone]
+        if direct:
+            note = '; hands %s back as Pending itself instead of as Idle (decided by TOK-pending, PARK-wake)' % '/'.join(sorted(set(a for a, _, _ in direct)))
+            added = [x for x in added if x not in direct]
+            gone = [x for x in gone if not (x[1] == 'Idle' and x[2] == 'nonowner' and any(x[0] == a for a, _, _ in direct))]
+            if not added and not gone:
+                out.append(ok('TR-base', key, '%d transition(s) as reviewed%s' % (len(b), note), fn=root))
                 continue
         if not added and not gone:
             out.append(ok('TR-base', key, '%d transition(s) as reviewed' % len(b), fn=root))
